@@ -52,7 +52,7 @@ func c15Params(s *vfFRRSessSpec) bgp.SessionParameters {
 		DisableMP:       s.DisableMP,
 		SessionName:     "peer-" + s.PeerKey(),
 	}
-	if s.SecretName != "" {
+	if s.SecretName != "" || s.SecretNS != "" {
 		p.PasswordRef = corev1.SecretReference{Name: s.SecretName, Namespace: s.SecretNS}
 	}
 	if s.Src != "" {
@@ -601,7 +601,7 @@ func c15Case(c *vfCase) {
 	var kept []int
 	for i := range prog.Sessions {
 		s := &prog.Sessions[i]
-		both := s.Password != "" && s.SecretName != ""
+		both := s.Password != "" && (s.SecretName != "" || s.SecretNS != "")
 		c.Eval()
 		c.Count("comparisons")
 		switch {
